@@ -7,19 +7,20 @@ import C04 as H4
 import C07 as H7
 
 
-def make_program(rnd):
-    kind = rnd.choice(['single', 'federated', 'fx', 'fx', 'markets'])
+def make_program(rnd, force=None):
+    """force: 'gift2' (one income-relevant amount paid to two recipients) / 'pension' (exogenous deposit holder): the first cases of every run"""
+    kind = 'single' if force else rnd.choice(['single', 'federated', 'fx', 'fx', 'markets'])
     if kind == 'single':
-        prog = dict(external=False, countries=[M.economy(rnd, 'CA', 'CAD')], horizon=5, flows=[])
+        prog = dict(external=False, countries=[M.economy(rnd, 'CA', 'CAD', variant=('pc' if force == 'pension' else None))], horizon=5, flows=[])
         c = prog['countries'][0]
         if rnd.random() < 0.5:
             prog['flows'].append((c['code'], c['gov'], c['code'], c['hh'], 'GIFT', repr(round(rnd.uniform(0.2, 2.0), 3))))
-        if rnd.random() < 0.4:
+        if force == 'gift2' or rnd.random() < 0.4:
             # the SAME amount variable paid to two recipients
-            inc = rnd.random() < 0.6
+            inc = True if force == 'gift2' else rnd.random() < 0.6
             prog['flows'].append((c['code'], c['hh'], c['code'], c['gov'], 'GIFT2', repr(round(rnd.uniform(0.2, 1.0), 3)), inc))
             prog['flows'].append((c['code'], c['hh'], c['code'], c['roles']['bus'], 'GIFT2', repr(round(rnd.uniform(0.2, 1.0), 3)), inc))
-        if c['variant'] == 'pc' and rnd.random() < 0.7:
+        if c['variant'] == 'pc' and (force == 'pension' or rnd.random() < 0.7):
             # a holder whose deposits are a placeholder '0.0' made exogenous (like government demand)
             prog['pension'] = (c['code'], '[%s]' % ', '.join(repr(round(rnd.uniform(2, 9), 1)) for _ in range(12)))
         return prog
@@ -47,7 +48,7 @@ def ledger(tier, seed, **opts):
                '4-5 periods; for every currency and period k >= 2 the changes in F of all sectors of the zone plus the FX position sum to 0: 30 (quick) / 600 (thorough)')
     rnd = random.Random(seed)
     for i in range(30 if tier == 'quick' else 600):
-        prog = make_program(rnd)
+        prog = make_program(rnd, force={0: 'gift2', 1: 'pension', 2: 'gift2'}.get(i))
         try:
             bad = run_program(prog)
         except Exception as ex:
